@@ -1251,6 +1251,21 @@ func (e *Env) compsOfLocSpec(loc string) []string {
 			}
 		}
 	}
+	// a named map or slice type (http.Header, url.Values): the components of its underlying type
+	if te, err := parseTypeString(loc); err == nil {
+		if t := e.tryResolveType(te); t != nil {
+			switch u := t.Underlying().(type) {
+			case *types.Map:
+				mh, mv, _, _ := vc.mapComps(u)
+				return []string{mh, mv, mlOf(mh)}
+			case *types.Slice:
+				if _, isStruct := u.Elem().Underlying().(*types.Struct); !isStruct {
+					c, _ := vc.elemComp(u.Elem())
+					return []string{c}
+				}
+			}
+		}
+	}
 	if k := strings.LastIndex(loc, "."); k > 0 {
 		tname, fname := loc[:k], loc[k+1:]
 		te, err := parseTypeString(tname)
@@ -1276,6 +1291,20 @@ func (e *Env) compsOfLocSpec(loc string) []string {
 	}
 	e.fail("bad location spec %q", loc)
 	return nil
+}
+
+func (e *Env) tryResolveType(te TypeExpr) (t types.Type) {
+	defer func() {
+		if r := recover(); r != nil {
+			if _, ok := r.(unsupportedErr); ok {
+				t = nil
+				return
+			}
+			panic(r)
+		}
+	}()
+	t, _ = e.resolveType(te)
+	return t
 }
 
 // locComps: components named by an expression used as a location (unchanged(...)).
